@@ -9,13 +9,12 @@ prop("C03",
                 "- any choices, faults, stale listers, delayed or LOST events, restarts - ending with the listers in sync, after "
                 "one fault-free resync pass in any admissible order every record that still names a vanished / finished pod is "
                 "kept by the documented policy evaluated with its stored policy, or its stored policy is never), "
-                "quiescent_default_released, reachable_coherent (memory = store after every history, no assumption about "
-                "binds), stored_policy_preserved_by_reserve_memory / _store / _by_unbind_and_resync, 13 fact_* theorems. "
+                "quiescent_default_released, reachable_coherent (memory = store after every history, no side condition), stored_policy_preserved_by_reserve_memory / _store / _by_unbind_and_resync, 13 fact_* theorems. "
                 "_partial: deployment_ips_within_replicas_partial (the deployment clause holds at decision time only) with "
                 "deployment_ips_within_replicas_counter (D12 on the model; same history breaks the real code: known finding "
                 "dp-prefix-ip-never-reevaluated, corpus/C03/d12.ops).",
-     level_note="quiescent_no_orphan assumes `reloadsClean` (the injected fault of a reload does not hit one of its store deletes: "
-                "that would be a C05 matter) and a fault-free final resync pass; the decision table assumes DIn.WF (policy in "
+     level_note="quiescent_no_orphan assumes only what the property says: listers in sync and one resync pass without injected "
+                "fault (no side condition on the history before it); the decision table assumes DIn.WF (policy in "
                 "{0,1,2}; unknown deployment = 0 replicas and the address under decision counted under its own prefix - both "
                 "facts of the callers; a statefulset / scalable-CR pod carries its ordinal in the key). Scalable custom "
                 "resources are in the decision table and in the real-code table run (through verif_hooks_c03.go) but not in "
